@@ -317,7 +317,10 @@ class FunctionParser(BaseParser):
         self.return_type = self.parse_annotation(
             annotation=self.return_annotation
         )
+        self.generate_generator_types()
 
+    def generate_generator_types(self):
+        # also called again once the forward references of the return annotation are resolved
         # https://docs.python.org/3/library/typing.html#typing.Generator
         if self.return_type and isinstance(self.return_type, type) and issubclass(self.return_type, Rule):
             if self.is_generator:
@@ -516,6 +519,12 @@ class FunctionParser(BaseParser):
             self.position_type, r = resolve_forward_type(self.position_type)
         if self.return_type:
             self.return_type, r = resolve_forward_type(self.return_type)
+            if self.is_generator or self.is_async_generator:
+                # the yield / send / return types come from the args of the (now resolved) return type
+                self.generate_generator_types()
+                self.generator_yield_type, r = resolve_forward_type(self.generator_yield_type)
+                self.generator_send_type, r = resolve_forward_type(self.generator_send_type)
+                self.generator_return_type, r = resolve_forward_type(self.generator_return_type)
 
     def wrap(
         self,
